@@ -111,11 +111,54 @@ def ill_conditioned(sd, env, a):
 def fin(v): 
     return mp.isfinite(v) if not isinstance(v, list) else all(fin(x) for x in v)
 
+def missing_symbols(expr, rendering, printer):
+    """'symbols appear under their display names': every free symbol of the expression, printed on its own, occurs in the
+    rendering (substring test: deliberately weak, the value comparison does the rest)"""
+    out = []
+    DimensionSymbol = _lib()[2]
+    try:
+        free = sorted(expr.free_symbols, key=str)
+    except Exception:  # pylint: disable=broad-except
+        return out
+    for sym in free:
+        if not (isinstance(sym, sympy.Symbol) and isinstance(sym, DimensionSymbol)):
+            continue  # (labels of indexed bases and indices are internal objects without a display name of their own)
+        try:
+            nm = printer(sym)
+        except Exception:  # pylint: disable=broad-except
+            continue
+        if nm and nm not in rendering:
+            out.append((nm, sym))
+    if not out:
+        return []
+    # a symbol that cancels out of the value (rho / (35000 * rho)) may legitimately vanish from a rendering: only symbols the
+    # value depends on count
+    sides = [expr.lhs, expr.rhs] if isinstance(expr, sympy.Equality) else [expr]
+    import random as _random
+    env, clash = atoms_env(expr, _random.Random(12345))
+    if clash:
+        return []
+    dependent = []
+    for nm, sym in out:
+        key = sym.display_name
+        try:
+            env2 = dict(env)
+            env2[key] = env[key] * mp.mpf("1.37") + mp.mpf("0.21")
+            if any(abs(ev_sym(sd, env) - ev_sym(sd, env2)) > mp.mpf(10) ** -12 for sd in sides if sd.has(sym)):
+                dependent.append(nm)
+        except Exception:  # pylint: disable=broad-except
+            continue
+    return dependent
+
+
 def compare(expr, rnd, trials=3):
     """returns ('ok'|'viol'|'inconclusive', detail, rendering)"""
     code_str, latex_str, DimensionSymbol, Symbolic = _lib()
     s=code_str(expr)
     sides=[expr.lhs, expr.rhs] if isinstance(expr, sympy.Equality) else [expr]
+    missing = missing_symbols(expr, s, code_str)
+    if missing:
+        return ("viol", "symbol(s) of the expression absent from the rendering: " + ", ".join(missing), s)
     decided=0
     for t in range(trials):
         env,clash=atoms_env(expr, rnd)
@@ -181,6 +224,9 @@ def compare_latex(expr, rnd, trials=3):
     bal = check_balanced(s)
     if bal:
         return ("viol", "unbalanced: " + bal, s)
+    missing = missing_symbols(expr, s, latex_str)
+    if missing:
+        return ("viol", "symbol(s) of the expression absent from the rendering: " + ", ".join(missing), s)
     sides = [expr.lhs, expr.rhs] if isinstance(expr, sympy.Equality) else [expr]
     envs = []
     for t in range(trials):
